@@ -2,6 +2,7 @@ package core
 
 import (
 	"bytes"
+	"sync/atomic"
 	"math/bits"
 	"encoding/binary"
 	"encoding/json"
@@ -151,6 +152,7 @@ func runWorker(prop, tier, shardS, nshardsS, dir string) int {
 	}
 	ctx := newCtx(prop, tier, seedFromEnv(), shard, nshards, kf)
 	ctx.openCrashBuf(filepath.Join(dir, fmt.Sprintf("crash.%d", shard)))
+	go caseWatchdog(perCaseCPUSeconds(m))
 	func() {
 		// a panic that escapes here is a defect of the harness itself (calls into /repo are
 		// recovered inside Ctx.Call): report the check as broken, accuse nobody
@@ -197,6 +199,45 @@ func runWorker(prop, tier, shardS, nshardsS, dir string) int {
 	return 0
 }
 
+// WatchdogExit is the exit status of a worker whose current case used more CPU than any
+// legitimate case does (100x and more); the driver then confirms the case alone.
+const WatchdogExit = 4
+
+func perCaseCPUSeconds(m Monitor) int {
+	if v, _ := strconv.Atoi(os.Getenv("VERIF_CASE_CPU")); v > 0 {
+		return v
+	}
+	return 20
+}
+
+func processCPU() time.Duration {
+	var ru syscall.Rusage
+	if syscall.Getrusage(syscall.RUSAGE_SELF, &ru) != nil {
+		return 0
+	}
+	return time.Duration(ru.Utime.Nano() + ru.Stime.Nano())
+}
+
+// caseWatchdog ends the worker when one and the same case has consumed more than limit
+// seconds of CPU.  It only watches the monitor's own progress counter; it decides nothing:
+// the driver re-runs the attributed case alone before anything is reported.
+func caseWatchdog(limit int) {
+	last := atomic.LoadInt64(&progress)
+	start := processCPU()
+	for {
+		time.Sleep(250 * time.Millisecond)
+		now := atomic.LoadInt64(&progress)
+		if now != last {
+			last, start = now, processCPU()
+			continue
+		}
+		if used := processCPU() - start; used > time.Duration(limit)*time.Second {
+			fmt.Fprintf(os.Stderr, "WATCHDOG: the current case has used %.0fs of CPU (SIGXCPU-equivalent)\n", used.Seconds())
+			os.Exit(WatchdogExit)
+		}
+	}
+}
+
 // runSingle executes one case from a crash buffer alone (confirmation of a watchdog hit).
 func runSingle(prop, crashFile string) int {
 	m := registry[prop]
@@ -204,7 +245,7 @@ func runSingle(prop, crashFile string) int {
 	if m == nil || cs == nil {
 		return 3
 	}
-	lim := syscall.Rlimit{Cur: 60, Max: 65}
+	lim := syscall.Rlimit{Cur: 40, Max: 45}
 	_ = syscall.Setrlimit(0, &lim)
 	p := getPaths(prop)
 	kf, _ := LoadKnownFindings(p.known)
@@ -411,26 +452,58 @@ func runDriver(prop, tier string) int {
 		replayFiles = append(replayFiles, name)
 		return name
 	}
+	// confirmations of CPU-watchdog hits: each attributed case alone, all of them in parallel
+	type confirmation struct {
+		finished bool
+		out      string
+	}
+	confirmations := map[int]confirmation{}
+	{
+		var cmu sync.Mutex
+		var cwg sync.WaitGroup
+		for _, o := range outcomes {
+			if o.res != nil {
+				continue
+			}
+			crashFile := filepath.Join(p.work, fmt.Sprintf("crash.%d", o.shard))
+			if readCrashBuf(crashFile) == nil {
+				continue
+			}
+			cwg.Add(1)
+			go func(shard int, crashFile string) {
+				defer cwg.Done()
+				c2 := exec.Command(self, "single", prop, crashFile)
+				c2.Env = append(os.Environ(), "VERIF_SEED="+strconv.FormatInt(seed, 10), "GOTRACEBACK=single")
+				out, err2 := c2.CombinedOutput()
+				fin := err2 == nil
+				if ee, ok := err2.(*exec.ExitError); ok && ee.ExitCode() == 1 {
+					fin = true // the case alone returns (with an ordinary violation): not a hang, not a fatal error
+				}
+				cmu.Lock()
+				confirmations[shard] = confirmation{fin, tail(string(out), 3000)}
+				cmu.Unlock()
+			}(o.shard, crashFile)
+		}
+		cwg.Wait()
+	}
 	for _, o := range outcomes {
 		if o.res == nil {
 			// the worker died: attribute to the case in its crash buffer
 			crashFile := filepath.Join(p.work, fmt.Sprintf("crash.%d", o.shard))
 			cs := readCrashBuf(crashFile)
-			cpuLimit := strings.Contains(o.stderr, "SIGXCPU") || o.signal == "CPU time limit exceeded" || o.signal == "killed"
+			cpuLimit := strings.Contains(o.stderr, "SIGXCPU") || strings.Contains(o.stderr, "WATCHDOG") || o.signal == "CPU time limit exceeded" || o.signal == "killed"
 			if cs == nil {
 				merged.Broken = append(merged.Broken, fmt.Sprintf("shard %d died without an attributable case: %v %s", o.shard, o.err, tail(o.stderr, 400)))
 				continue
 			}
 			if cpuLimit {
-				// confirm alone under its own CPU limit
-				c2 := exec.Command(self, "single", prop, crashFile)
-				c2.Env = append(os.Environ(), "VERIF_SEED="+strconv.FormatInt(seed, 10))
-				out, err2 := c2.CombinedOutput()
-				if err2 == nil {
+				// confirmed alone under its own CPU limit?
+				conf := confirmations[o.shard]
+				if conf.finished {
 					merged.Inconclusive = append(merged.Inconclusive, fmt.Sprintf("shard %d hit the CPU watchdog at case %s; the case alone finishes: shard not claimed", o.shard, cs.Brief()))
 					continue
 				}
-				o.stderr = o.stderr + "\n--- single re-run ---\n" + tail(string(out), 3000)
+				o.stderr = o.stderr + "\n--- single re-run ---\n" + conf.out
 			}
 			kind := "crash"
 			class := "worker process died (fatal error or CPU limit) while executing this case"
